@@ -7,7 +7,8 @@ decode(img, iso=None) -> RRVolume
 
 RRVolume: present, version ('1.09'|'1.10'|'1.12'|None), skip, xa, er (id, descriptor, source,
   ext_ver)|None, problems [(key, detail)], entries {iso_path: RREntry}, dots {dir iso_path:
-  (RREntry, RREntry)}, logical {posix path: LNode}, extent_map [(kind, id, start, end)].
+  (RREntry, RREntry)}, others [RREntry of the 2nd.. records of multi-extent files], logical {posix
+  path: LNode}, extent_map [(kind, id, start, end)], holder {relocated dir: dir holding its CL}.
 Problem keys: susp:len-sum susp:unknown-entry susp:ce-outside susp:ce-overlap susp:ce-loop
   susp:sp-missing susp:sp-misplaced susp:er-missing susp:re-missing susp:cl-target susp:pl-target
   name:missing name:flags sl:format px:length px:both-endian px:type px:nlink:dir tf:format
@@ -30,6 +31,7 @@ class RREntry:
     def __init__(self, where, rec):
         self.where = where          # iso path ('<dir>/.' and '<dir>/..' for the dot records)
         self.rec = rec              # the ecma119.Rec
+        self.dot = rec.ident in (b'\x00', b'\x01')
         self.name = self.mode = self.nlink = self.uid = self.gid = self.serial = None
         self.target = self.cl = self.pl = self.rr_flags = self.px_len = self.pn = None
         self.re = self.is_symlink = self.has_sp = False
@@ -67,6 +69,7 @@ class RRVolume:
         self.logical = {}
         self.extent_map = []
         self.iso = None
+        self.others = []              # RREntry of the further records of multi-extent files
         self.holder = {}              # relocated dir iso path -> iso path of the dir holding its CL
 
     def prob(self, key, detail=''):
@@ -226,12 +229,11 @@ def _entry(vol, e, sig, b, where, may_be_sp):
 
 def _finish(vol, e, where):
     """Reassemble the alternate name and the symbolic link target of one record."""
-    dot = where.endswith('/.') or where.endswith('/..')
     if e.nm:
         e.name = b''.join(n for _, n in e.nm)
         if any(not f & 1 for f, _ in e.nm[:-1]) or e.nm[-1][0] & 1:
             vol.prob('name:flags', '%s: NM flags %s: CONTINUE chain broken' % (where, [f for f, _ in e.nm]))
-        if not dot and any(f & 6 for f, _ in e.nm):
+        if not e.dot and any(f & 6 for f, _ in e.nm):
             vol.prob('name:flags', '%s: NM CURRENT/PARENT flag on an ordinary record' % where)
     if e.sl:
         e.is_symlink = True
@@ -293,14 +295,16 @@ def _decode(img, pv, vol):
     for path, node in pv.tree.items():
         if path == '/':
             continue
-        got = [_guard(vol, path, _parse_record, vol, img, r, path) or RREntry(path, r) for r in node.recs]
-        # a multi-extent file: the record that carries the attributes wins
+        ids = [path if i == 0 else '%s#%d' % (path, i) for i in range(len(node.recs))]
+        got = [_guard(vol, w, _parse_record, vol, img, r, w) or RREntry(w, r) for w, r in zip(ids, node.recs)]
+        # a multi-extent file has one record per extent: the first one carrying attributes wins
         vol.entries[path] = next((g for g in got if g.px_len is not None or g.nm), got[0])
-    everything = [e for pair in vol.dots.values() for e in pair] + list(vol.entries.values())
+        vol.others.extend(g for g in got if g is not vol.entries[path])
+    everything = [e for pair in vol.dots.values() for e in pair] + list(vol.entries.values()) + vol.others
     if not vol.present:
         if not any(e.sigs for e in everything):
             vol.problems = []            # no SUSP on this image at all
-            vol.entries, vol.dots = {}, {}
+            vol.entries, vol.dots, vol.others = {}, {}, []
             return
         vol.prob('susp:sp-missing', 'root "." system-use area starts with %r' % s[:7])
     _guard(vol, 'checks', _checks, pv, vol, everything)
@@ -324,10 +328,9 @@ def _checks(pv, vol, everything):
     want_px = {'1.09': 36, '1.10': 36, '1.12': 44}.get(vol.version)
     any_nm = any(e.nm for e in vol.entries.values())
     for e in everything:
-        dot = e.where.endswith('/.') or e.where.endswith('/..')
         if e.px_len is not None and (e.px_len not in (36, 44) or (want_px and e.px_len != want_px)):
             vol.prob('px:length', '%s: PX length %d (RRIP %s)' % (e.where, e.px_len, vol.version))
-        if any_nm and not dot and not e.nm:
+        if any_nm and not e.dot and not e.nm:
             vol.prob('name:missing', e.where)
         if e.mode is not None and e.cl is None:
             t = e.mode & IFMT
